@@ -51,6 +51,9 @@ def catalog():
     add('enlarge25', like='gauss', n_live=40, n_batch=20, n_eff=20, f_live=0.1, enlarge_per_dim=2.5,
         discard=True, want='removed')
     add('long_b5', like='gauss', n_live=60, n_batch=5, n_eff=2300, f_live=0.01)
+    add('obj_vec', like='gauss', prior='object', vectorized=True, n_dim=3, n_live=40, n_batch=20,
+        n_eff=80, f_live=0.1, blob='float')
+    add('gauss_stale', like='gauss', n_live=30, n_batch=15, n_eff=100, f_live=0.1, stale_file=True)
     add('half', like='half', n_live=40, n_batch=20, n_eff=120, f_live=0.1)
     add('plateau', like='plateau', n_live=40, n_batch=20, n_eff=120, f_live=0.1)
     add('wrap', like='wrap', n_live=40, n_batch=20, n_eff=120, f_live=0.1, periodic=[0])
